@@ -642,7 +642,7 @@ def generate(ctx: Ctx) -> List[Case]:
     cases: List[Case] = []
     for i, rec in enumerate(CORPUS):
         cases.append(run_recipe(ctx, rec, f"corpus{i}"))
-    n = 40000 if ctx.thorough else 2500
+    n = 100000 if ctx.thorough else 2500
     if ctx.thorough:
         import multiprocessing as mp
         chunk = 2500
